@@ -22,4 +22,4 @@ ASSUMPTIONS = ["full_moon attaches every comment to exactly one token as leading
 def run(ctx):
     return [r_drop.rule_drop(ctx, "C03"), r_replace.rule_replace(ctx, "C03"), r_replace.rule_replace_census(ctx, "C03"),
             r_keep.rule_keep_format_token(ctx, "C03"), r_keep.rule_keep_load(ctx, "C03"), r_keep.rule_keep_eof(ctx, "C03"),
-            r_guard.rule_guard(ctx, "C03"), r_keep.rule_span_side(ctx, "C03"), r_replace.rule_strip_contract(ctx, "C03"), r_replace.rule_strip_callers(ctx, "C03"), r_keep.rule_getter_setter_fields(ctx, "C03"), r_layout.rule_comment_layout(ctx, "C03"), r_layout.rule_take(ctx, "C03"), r_layout.rule_copy(ctx, "C03"), p_c07.rule_print(ctx, "C03")]
+            r_guard.rule_guard(ctx, "C03"), r_keep.rule_span_side(ctx, "C03"), r_replace.rule_strip_contract(ctx, "C03"), r_replace.rule_strip_callers(ctx, "C03"), r_keep.rule_getter_setter_fields(ctx, "C03"), r_layout.rule_comment_layout(ctx, "C03"), r_layout.rule_take(ctx, "C03"), r_layout.rule_copy(ctx, "C03"), r_layout.rule_pair_source(ctx, "C03"), p_c07.rule_print(ctx, "C03")]
